@@ -376,16 +376,34 @@ fn try_alt(
             // frames exhausted, replies missing
             let it = slot_item.expect("unmatched slot");
             match &obs.end {
-                ObsEnd::Open { .. } => out.push(viol(
-                    "C01",
-                    "unanswered-while-open",
-                    format!(
-                        "message #{} ({}) got no (complete) reply group although the connection stayed open; expected {:?}",
-                        it.owner,
-                        owner_view(model, it.owner).map(|v| v.method.clone()).unwrap_or_default(),
-                        it.reply
-                    ),
-                )),
+                ObsEnd::Open { iface, .. } => {
+                    out.push(viol(
+                        "C01",
+                        "unanswered-while-open",
+                        format!(
+                            "message #{} ({}) got no (complete) reply group although the connection stayed open; expected {:?}",
+                            it.owner,
+                            owner_view(model, it.owner).map(|v| v.method.clone()).unwrap_or_default(),
+                            it.reply
+                        ),
+                    ));
+                    // where did the request go instead? If the connection counts as upgraded although
+                    // no call of this alternative upgrades it, the request was handed to an upgraded
+                    // handler (or to nobody) instead of the interface its method names
+                    let handed_over = obs.upgraded_record.as_ref().map_or(false, |r| !r.is_empty());
+                    if !matches!(alt.end, End::Upgraded { .. }) && (iface.is_some() || handed_over) {
+                        out.push(viol(
+                            "C03",
+                            "routed-to-upgraded-handler",
+                            format!(
+                                "message #{} ({}) was not routed by its interface name: the connection is treated as upgraded ({:?}) although no call upgraded it",
+                                it.owner,
+                                owner_view(model, it.owner).map(|v| v.method.clone()).unwrap_or_default(),
+                                iface
+                            ),
+                        ));
+                    }
+                }
                 ObsEnd::Closed { kind } => {
                     if obs.faulted {
                         // legitimately cut short
